@@ -51,15 +51,14 @@ Definition is_nil {A} (l : list A) : bool := match l with [] => true | _ => fals
 
 (** the property, read on the implementation's own output:
     - a document valid under the specification gets no diagnostic;
-    - a document (with unique type and directive names, and no application naming an argument twice) that breaks
-      an implemented rule gets at least one;
+    - a document (with unique type and directive names) that breaks an implemented rule gets at least one;
     - the generator's label agrees with the specification side (a `valid` case is [spec_valid], a case labelled
       with a rule breaks that rule), so neither check can pass vacuously. *)
 Definition holds (c : case) : bool :=
   match c with
   | CCheck label doc errs =>
       let sv := spec_valid doc in
-      let viol := if unique_names doc && ok_app_arg_unique doc then violated doc else [] in
+      let viol := if unique_names doc then violated doc else [] in
       (if str_eqb label (s "valid") then sv else true) &&
       (match label_rule label with Some r => existsb (rule_eqb r) viol | None => true end) &&
       (if sv then is_nil errs else true) &&
